@@ -1,5 +1,5 @@
 import QbVerif.Model.IpcsLife
-import QbVerif.Lemmas.IpcsLifeInvTop
+import QbVerif.Lemmas.IpcsLifeInvTop7
 
 /-!
 C04 — IPC server: callback order accept, created, msg*, closed+, destroyed; no use-after-free.
@@ -238,6 +238,40 @@ example : ∃ (s : St) (ops : List Op), Inv s ∧ (∀ op, op ∈ ops → ApiOp 
   ⟨initFixed, [.app (.d 1), .script .closed [{ ret := 1 }]], initFixed_inv,
    by intro op h; simp at h; rcases h with h | h <;> subst h <;> trivial, by simp⟩
 
+/-! ### history level from the INITIAL state: every history without destroy / half / halfgone / finish -/
+
+/-- callback_order (and destroyed_once_and_last, destroyed_only_at_refcount_zero through the monitor),
+    `_partial` only in the op set: for EVERY history from the initial state made of script definitions,
+    connects (accept returning anything, created bracket), requests, client disappearance, the
+    application's disconnect / ref / unref / event_send / list walk from outside, retry jobs — each
+    with everything it triggers inside scripted callbacks, nested to any depth — no callback is ever
+    invoked out of the order accept (created msg* closed(≠0)* closed(0))? destroyed, `closed` never
+    after it returned 0, nothing after `destroyed`, `destroyed` only at library and application
+    reference count zero. -/
+theorem callback_order_no_destroy_partial (ops : List Op) (h : ∀ op, op ∈ ops → LiveOp op) (i : Nat) :
+    ((run initFixed ops).conns i).bad = false :=
+  ((run_live_ok ops initFixed initFixed_top h).core.inv.conn i).nb
+
+/-- no_touch_after_free for the same histories (connection objects; not the service object) -/
+theorem no_touch_after_free_no_destroy_partial (ops : List Op) (h : ∀ op, op ∈ ops → LiveOp op) (i : Nat) :
+    ((run initFixed ops).conns i).uaf = false :=
+  ((run_live_ok ops initFixed initFixed_top h).core.inv.conn i).nu
+
+/-- destroyed_only_at_refcount_zero, same histories: between operations the count of every connection
+    is exactly initial reference + application references (no library bracket is left behind) -/
+theorem refcount_between_ops_no_destroy_partial (ops : List Op) (h : ∀ op, op ∈ ops → LiveOp op)
+    (hh : (run initFixed ops).halt = false) (i : Nat) :
+    ((run initFixed ops).conns i).rc =
+      b2n ((run initFixed ops).conns i).init + ((run initFixed ops).conns i).appref := by
+  have ht := run_live_ok ops initFixed initFixed_top h
+  have hb := ht.nb hh i
+  simp [Brs] at hb
+  rw [(ht.core.inv.conn i).R, hb.1, hb.2.1, hb.2.2]; simp
+
+example : ∃ ops : List Op, (∀ op, op ∈ ops → LiveOp op) ∧ ops.length = 5 :=
+  ⟨[.script .closed [{ ret := 1 }], .connect 0, .app (.r 1), .gone 0, .job],
+   by intro op h; simp at h; rcases h with h | h | h | h | h <;> subst h <;> trivial, rfl⟩
+
 /-
 Full statements (NOT yet proved; sampled by the differential check against the real code):
 
@@ -245,13 +279,15 @@ theorem callback_order (ops : List Op) (i : Nat) : ((run initFixed ops).conns i)
 theorem destroyed_once_and_last / destroyed_only_at_refcount_zero : the same flag (monitor_flags_*)
 theorem no_touch_after_free (ops : List Op) : (run initFixed ops).halt = false
 
-Missing: that the remaining external operations preserve `Inv` (+ "no bracket reference is held and
-indices above nconn are unused between operations"): connect (handle_new_connection with the accept
-and created scripts), send / gone (dispatch bracket), job / run (_rerun_closed_job_), destroy (the
-reference-holding walk), half / halfgone, finish; and the service object's own count (svcUaf).
-Available for it: `api_calls_preserve_invariant` + `exec_frame` (bracket flags, cl = RUNNING,
-phase accepting / dead / none are stable under nested calls) + `exec_nconn`, and the
-connection-level lemmas P.refD / P.decD / P.refW / P.decW / P.decC / P.jobReset (Lemmas/IpcsLifeInvConn).
+Missing for them: TopInv preservation by `destroy` (walkFix / walkStep: the reference-holding walk),
+`half` / `halfgone` (only service fields: `TopInv.same`), `finish` (folds of dropAppRefs, gone,
+halfGone, then destroy, runJobs), and the service object's own count (svcUaf).
+NEXT LEMMA: `walkStep_ok : Core s → s.halt = false → BrW s c → nxt = succOf c s.list →
+  Core (walkStep s c nxt) ∧ ((walkStep s c nxt).halt = false → match nxt with | some x => BrW _ x | none => NB _)`
+(BrW like BrD in Lemmas/IpcsLifeInvTop3; needs `succOf c l = some x → x ∈ l ∧ (l.Nodup → x ≠ c)`,
+P.refW / P.decW from Lemmas/IpcsLifeInvConn, Core.lnn for `phase x ≠ none`), then `walkFix_ok` by
+induction on the fuel (the fuel-0 case drops the reference), `destroy_ok`, `finish_ok`, and the
+cases destroy / half / halfgone / finish in `step_live_ok` (Lemmas/IpcsLifeInvTop7).
 -/
 
 end QbVerif.Props.C04
